@@ -45,7 +45,7 @@ F7_SIG = "F7-eig-segment-N=d+skip"
 # column, so I - G G^T is not a projector there.  False: counted (histogram counters ltsa_rankdef_*), never a
 # verdict.  True (once the repair is in the tree): the clause of check_null_space is a verdict for KLTSA exactly
 # as it is for HLLE.
-LTSA_RANKDEF_ENFORCED = False
+LTSA_RANKDEF_ENFORCED = True
 LTSA_RANKDEF_SIG = "C08-kltsa-rank-deficient-neighbourhood"
 
 TRUSTED = [
